@@ -29,7 +29,7 @@ func init() {
 	registerSuite("replicas", func(c *suiteCtx) {
 		u := defaultUser()
 		for _, redis := range []bool{true, false} {
-			a, err := newEnv(c, proxyCfg{Redis: redis, RedisRealTime: redis, CookieRefresh: time.Second, CookieExpire: time.Hour, InjectRequest: defaultInject()})
+			a, err := newEnv(c, proxyCfg{Redis: redis, RedisRealTime: redis, PKCE: map[bool]string{true: "S256", false: "plain"}[redis], CookieRefresh: time.Second, CookieExpire: time.Hour, InjectRequest: defaultInject()})
 			if err != nil {
 				c.violation("HARNESS", "env A: "+err.Error(), nil)
 				continue
